@@ -65,16 +65,32 @@ REL = [False]      # print literal template names relative ("./t2") - for runs w
 
 
 LAYOUT = [None, None]      # ({template id: (directory, base name)}, directory of the template being printed)
+WSTYLE = [0]               # how a relative name is written: 0 "./x", 1 "x", 2 "zz/../x", 3 "./zz/.././x"
+PJMODE = [None]            # "prefix" / "lower": the join callback is an arbitrary mapping of the written name
+
+
+def written(rel):
+    return ("./" + rel, rel, "zz/../" + rel, "./zz/.././" + rel)[WSTYLE[0]]
 
 
 def ne_src(e):
     if e[0] == "lit":
         lay, cur = LAYOUT
+        if PJMODE[0] == "lower" and e[1] != 0:
+            return '"%s"' % S(e[1]).upper()
+        if PJMODE[0] == "prefix":
+            return '"%s"' % S(e[1])
         if lay is not None and e[1] != 0:
-            # the name as written is relative to the directory of the template that contains the tag
+            # the name as written is relative to the directory of the template that contains the tag ("" = top level)
             d, b = lay.get(e[1], (cur, S(e[1])))
-            return '"./%s"' % b if d == cur else '"../%s/%s"' % (d, b)
-        return '"%s%s"' % ("./" if REL[0] and e[1] != 0 else "", S(e[1]))
+            if d == cur: rel = b
+            elif cur == "": rel = d + "/" + b
+            elif d == "": rel = "../" + b
+            else: rel = "../" + d + "/" + b
+            return '"%s"' % (rel if rel.startswith("../") and WSTYLE[0] in (0, 1) else written(rel))
+        if REL[0] and e[1] != 0:
+            return '"%s"' % written(S(e[1]))
+        return '"%s"' % S(e[1])
     return S(e[1])
 
 
@@ -106,7 +122,12 @@ def src(items):
         elif k == "from":
             out.append("{%% from %s import %s %%}" % (ne_src(it[1]), ", ".join(S(x) if x == a else "%s as %s" % (S(x), S(a)) for x, a in it[2])))
         elif k == "pattr": out.append("{{ %s.%s }}" % (S(it[1]), S(it[2])))
-        elif k == "cattr": out.append('{{ %s.%s("%s") }}' % (S(it[1]), S(it[2]), S(it[3])))
+        elif k == "cattr":
+            style = it[4] if len(it) > 4 else 0      # spellings of calling something a module exposes
+            if style == 0: out.append('{{ %s.%s("%s") }}' % (S(it[1]), S(it[2]), S(it[3])))
+            elif style == 1: out.append('{{ %s["%s"]("%s") }}' % (S(it[1]), S(it[2]), S(it[3])))
+            elif style == 2: out.append('{%% set zt = %s.%s %%}{{ zt("%s") }}' % (S(it[1]), S(it[2]), S(it[3])))
+            else: out.append('{%% set zt = %s["%s"] %%}{{ zt("%s") }}' % (S(it[1]), S(it[2]), S(it[3])))
         elif k == "keys": out.append("{%% for zk in %s %%}{{ zk }},{%% endfor %%}" % S(it[1]))
         elif k == "setblock": out.append("{%% set %s %%}%s{%% endset %%}" % (S(it[1]), src(it[2])))
         else: raise ValueError(k)
@@ -147,6 +168,19 @@ def enc_item(it):
 DEFAULT_LIMIT = 500
 
 
+def lit_refs(items, acc):
+    """ids of the templates named by literals in a tree"""
+    for it in items:
+        for x in it[1:]:
+            if isinstance(x, tuple) and len(x) == 2 and x[0] == "lit": acc.add(x[1])
+            elif isinstance(x, list):
+                if x and isinstance(x[0], tuple) and len(x[0]) == 2 and x[0][0] in ("lit", "var"):
+                    acc.update(e[1] for e in x if e[0] == "lit")
+                elif x and isinstance(x[0], tuple) and isinstance(x[0][0], str):
+                    lit_refs(x, acc)
+    return acc
+
+
 BAD_SYNTAX, BAD_LOADER = "syntax", "loader"      # a template that exists but does not load
 BAD_SRC = {BAD_SYNTAX: "real content {% if %}", BAD_LOADER: "!!ERR the loader fails"}
 BAD_CODE = {BAD_SYNTAX: 4, BAD_LOADER: 3}                # ErrorKind::SyntaxError / InvalidOperation
@@ -157,12 +191,24 @@ class Case:
     loader: templates are served through Environment::set_loader (forced when a template does not load);
     pathjoin: templates are named d/<name>, literal references are relative (./<name>), a path join callback is set"""
 
-    def __init__(self, templates, main, ctx=None, lim=DEFAULT_LIMIT, kind="", note=None, loader=False, pathjoin=False, layout=None):
+    def __init__(self, templates, main, ctx=None, lim=DEFAULT_LIMIT, kind="", note=None, loader=False, pathjoin=False, layout=None,
+                 config=None, pjmode=None, wstyle=0, named_str=False):
         self.templates, self.main, self.ctx, self.lim, self.kind, self.note = templates, main, ctx or {}, lim, kind, note
         # layout: {template id: (directory, base name)} - templates live in several directories, literal references are
         # written relative to the referring template (same base name in two directories = same written name)
         self.layout = layout
-        self.pathjoin = pathjoin or layout is not None
+        # config: environment configuration that must not matter (extra request fields); pjmode: "prefix" / "lower" = the path
+        # join callback is an arbitrary mapping; wstyle: spelling of relative names; named_str: the main template is not
+        # stored but rendered with Environment::render_named_str
+        self.config, self.pjmode, self.wstyle, self.named_str = config or {}, pjmode, wstyle, named_str
+        if named_str:
+            # a template rendered from a string is not stored: nothing may refer to it by name
+            refs = set(self.ctx.values())
+            for b in templates.values():
+                if not isinstance(b, str): lit_refs(b, refs)
+            if main in refs or main not in templates:
+                self.named_str = False
+        self.pathjoin = pathjoin or layout is not None or pjmode is not None
         self.loader = loader or any(isinstance(b, str) for b in templates.values())
 
     def fuel(self):
@@ -179,13 +225,16 @@ class Case:
         return out
 
     def full_name(self, n):
+        if self.pjmode == "prefix": return "p/" + S(n)
+        if self.pjmode == "lower": return S(n)
         if self.layout is not None:
             d, b = self.layout[n]
-            return d + "/" + b
+            return (d + "/" if d else "") + b
         return ("d/" if self.pathjoin else "") + S(n)
 
     def request(self):
         REL[0] = self.pathjoin
+        WSTYLE[0], PJMODE[0] = self.wstyle, self.pjmode
         srcs = {}
         try:
             for n, b in self.templates.items():
@@ -194,10 +243,16 @@ class Case:
         finally:
             REL[0] = False
             LAYOUT[0] = LAYOUT[1] = None
+            WSTYLE[0], PJMODE[0] = 0, None
+        named = None
+        if self.named_str and self.main in self.templates and not isinstance(self.templates[self.main], str):
+            named = srcs.pop(self.full_name(self.main))
         r = {"templates": {} if self.loader else srcs, "main": self.full_name(self.main),
              "ctx": {S(x): S(v) for x, v in self.ctx.items()}, "ops": ["render"]}
         if self.loader: r["loader"] = srcs
-        if self.pathjoin: r["path_join"] = True
+        if self.pathjoin: r["path_join"] = self.pjmode or True
+        if named is not None: r["named_str"] = named
+        r.update(self.config)
         if self.lim != DEFAULT_LIMIT:
             r["recursion_limit"] = self.lim
         return r
@@ -206,7 +261,9 @@ class Case:
         r = self.request()
         d = {"kind": self.kind, "templates": r.get("loader") or r["templates"], "render": r["main"], "context": r["ctx"]}
         if self.loader: d["templates_served_by"] = "Environment::set_loader"
-        if self.pathjoin: d["path_join_callback"] = True
+        if self.pathjoin: d["path_join_callback"] = self.pjmode or "the callback of the documentation"
+        if r.get("named_str") is not None: d["rendered_with_render_named_str"] = {r["main"]: r["named_str"]}
+        if self.config: d["environment_configuration"] = self.config
         if self.lim != DEFAULT_LIMIT: d["recursion_limit"] = self.lim
         if self.note: d["note"] = self.note
         return d
@@ -850,16 +907,106 @@ def gen_alias_closures(chk, cases):
     cases.append(Case(t, 1, kind="alias/loop-variable"))
 
 
+CONFIGS = {
+    "unknown-method-declines": {"unknown_method": "decline"},
+    "unknown-method-handles-other": {"unknown_method": "handle"},
+    "formatter": {"formatter": True},
+    "auto-escape-callback": {"auto_escape": "none"},
+    "whitespace-settings": {"settings": {"trim_blocks": True, "lstrip_blocks": True, "keep_trailing_newline": True}},
+    "debug": {"debug": True},
+    "all": {"unknown_method": "handle", "formatter": True, "auto_escape": "none", "debug": True,
+            "settings": {"trim_blocks": True, "lstrip_blocks": True, "keep_trailing_newline": True}},
+}
+
+
+def gen_import_spellings(chk, cases):
+    """every spelling of using what an import exposes (m.f(), m["f"](), via set, from-import, aliases) at every placement,
+    under every environment configuration that must not matter"""
+    G, M, X, F, F2, K, Q = (VAR[c] for c in "gmxfhkq")
+    LIB, BASE = 12, 5
+    world = {LIB: [("set", X, T("X")), ("macro", F, [text("hello "), ("print", V_PARAM)]), ("macro", F2, [text("F2"), ("print", X), ("print", V_PARAM)]), text("body")],
+             BASE: [text("B("), blk(A, [text("ba")]), text(")")]}
+    def uses(style):
+        return {"module": [("import", lit(LIB), M), ("cattr", M, F, T("World"), style), text("|"), ("cattr", M, F2, T("b"), style), text("|"), ("pattr", M, X)],
+                "from": [("from", lit(LIB), [(F, F), (F2, K)]), ("call", F, T("World")), text("|"), ("call", K, T("b"))],
+                "module-from-module": [("import", lit(LIB), M), ("from", lit(LIB), [(F, Q)]), ("cattr", M, F, T("a"), style), ("call", Q, T("b"))]}
+    def place(where, body):
+        if where == "top": return {1: [text("M(")] + body + [text(")")]}
+        if where == "for": return {1: [text("M("), ("for", 2, [text("(")] + body + [text(")")]), text(")")]}
+        if where == "macro": return {1: [("macro", VAR["w"], [text("(")] + body + [text(")")]), text("M("), ("call", VAR["w"], T("P")), text(")")]}
+        if where == "block": return {1: [text("M("), blk(A, [text("[")] + body + [text("]")]), text(")")]}
+        if where == "child-block": return {1: [("extends", lit(BASE)), blk(A, [text("[")] + body + [SUPER, text("]")])]}
+        if where == "child-top-level": return {1: [("extends", lit(BASE))] + body[:1] + [blk(A, [text("[")] + body[1:] + [SUPER, text("]")])]}
+        if where == "included": return {1: [text("M("), inc([lit(2)]), text(")")], 2: body}
+    for style in (0, 1, 2, 3):
+        for uname, body in uses(style).items():
+            if style and uname == "from":
+                continue
+            for where in ("top", "for", "macro", "block", "child-block", "child-top-level", "included"):
+                for cname, cfg in [("default", {})] + sorted(CONFIGS.items()):
+                    t = dict(world); t.update(place(where, body))
+                    cases.append(Case(t, 1, {G: T("G")}, kind="import-spelling/%s/%s/%d/%s" % (where, uname, style, cname), config=cfg))
+
+
+def gen_join_callbacks(chk, cases):
+    """the joined name is callback(written name, referring template) ALWAYS: referring templates whose own names have no
+    directory part (top-level names, render_named_str templates, names with dots), written names that need normalisation
+    ("./x", "x", "zz/../x", "./zz/.././x"), the documented callback and arbitrary mappings (prefixing, lower-casing)"""
+    G, M, X, F = (VAR[c] for c in "gmxf")
+    MAIN, MID, BASE, PART, LIB, MISS = 1, 2, 3, 10, 12, 8
+    def world():
+        return {MAIN: [("extends", lit(MID)), blk(A, [text("main:"), inc([lit(PART)]), SUPER])],
+                MID: [("extends", lit(BASE)), blk(A, [text("mid:"), SUPER])],
+                BASE: [text("B("), blk(A, [text("base")]), text(")"), inc([lit(MISS), lit(PART)], False, 1), inc([lit(MISS)], True)],
+                PART: [text("<part>")]}
+    extras = {
+        "plain": {},
+        "import": {MAIN: [("import", lit(LIB), M), ("cattr", M, F, T("a")), ("from", lit(LIB), [(X, X)]), ("print", X), inc([lit(PART)], True)],
+                   LIB: [("set", X, T("X")), ("macro", F, [text("F"), ("print", V_PARAM)])]},
+        "include-ignore": {MAIN: [text("["), inc([lit(PART)], True), text("]["), inc([lit(MISS), lit(PART)], True, 1), text("]")]},
+        "self-cycle": {MAIN: [("extends", lit(MAIN)), text("x")]},
+        "two-cycle": {MAIN: [("extends", lit(MID))], MID: [("extends", lit(MAIN))]},
+        "loop": {MAIN: [("for", 2, [inc([lit(PART)])])]},
+    }
+    layouts = {
+        "all-top-level": {MAIN: ("", "index.txt"), MID: ("", "mid.txt"), BASE: ("", "base.txt"), PART: ("", "part.txt"), LIB: ("", "lib.txt")},
+        "main-top-level": {MAIN: ("", "index.txt"), MID: ("layouts", "mid.txt"), BASE: ("layouts", "base.txt"), PART: ("", "part.txt"), LIB: ("layouts", "lib.txt")},
+        "main-in-folder": {MAIN: ("pages", "index.txt"), MID: ("layouts", "mid.txt"), BASE: ("", "base.txt"), PART: ("pages", "part.txt"), LIB: ("", "lib.txt")},
+        "dotted-names": {MAIN: ("", "index."), MID: ("", "mid.."), BASE: ("", ".base"), PART: ("", "part.v1.txt"), LIB: ("", "lib.")},
+    }
+    for lname, lay in layouts.items():
+        for ename, extra in extras.items():
+            for ws in (0, 1, 2, 3):
+                for named in (False, True):
+                    for loader in (False, True):
+                        if named and loader:
+                            continue
+                        t = world(); t.update(extra)
+                        cases.append(Case(t, MAIN, kind="join/%s/%s" % (lname, ename), layout={k: lay[k] for k in t}, wstyle=ws, named_str=named, loader=loader))
+    # arbitrary mappings: every written name is prefixed / lower-cased, whoever refers to it
+    for mode in ("prefix", "lower"):
+        for ename, extra in extras.items():
+            for named in (False, True):
+                t = world(); t.update(extra)
+                cases.append(Case(t, MAIN, kind="join-mapping/%s/%s" % (mode, ename), pjmode=mode, named_str=named, loader=not named))
+
+
 def gen_variants(chk, cases):
     """the same configurations served lazily through a loader, and under a path join callback with relative names"""
     rng = chk.rng
-    base = [c for c in cases if not c.loader and not c.pathjoin and c.layout is None]
+    base = [c for c in cases if not c.loader and not c.pathjoin and c.layout is None and not c.config]
     extra = []
     for k in range(12000 if chk.thorough else 1500):
         c = rng.choice(base)
         mode = k % 3
         extra.append(Case(c.templates, c.main, c.ctx, c.lim, kind=c.kind.split("/")[0] + ("+loader", "+pathjoin", "+loader+pathjoin")[mode],
                           loader=mode != 1, pathjoin=mode != 0))
+    # environment configuration that must not matter, on a sample of everything
+    for k in range(20000 if chk.thorough else 2400):
+        c = rng.choice(base)
+        cname = sorted(CONFIGS)[k % len(CONFIGS)]
+        extra.append(Case(c.templates, c.main, c.ctx, c.lim, kind=c.kind.split("/")[0] + "+config:" + cname, config=CONFIGS[cname],
+                          named_str=(k % 5 == 0), pjmode=("lower" if k % 7 == 0 else None), wstyle=k % 4, pathjoin=(k % 3 == 0)))
     # inheritance cycles under relative names (the loaded set holds joined names)
     for n in (1, 2, 3):
         t = chain_templates([(1, 0, 0)] * n, 0)
@@ -931,6 +1078,8 @@ def all_cases(chk):
     gen_multidir(chk, cases)
     gen_captures(chk, cases)
     gen_alias_closures(chk, cases)
+    gen_import_spellings(chk, cases)
+    gen_join_callbacks(chk, cases)
     gen_outside_fragment(chk, cases)
     gen_variants(chk, cases)
     return cases
@@ -939,7 +1088,7 @@ def all_cases(chk):
 def replay_payload(c, extra):
     d = c.describe()
     d.update(extra)
-    d["tree"] = {"templates": repr(c.templates), "main": c.main, "ctx": repr(c.ctx), "lim": c.lim, "loader": c.loader, "pathjoin": c.pathjoin, "layout": repr(c.layout),
+    d["tree"] = {"templates": repr(c.templates), "main": c.main, "ctx": repr(c.ctx), "lim": c.lim, "loader": c.loader, "pathjoin": c.pathjoin, "layout": repr(c.layout), "config": c.config, "pjmode": c.pjmode, "wstyle": c.wstyle, "named_str": c.named_str,
                  "texts": {str(k): v for k, v in TAB.text.items()}}
     d["how"] = "./check C06 --replay <this file>"
     return d
@@ -950,7 +1099,8 @@ def load_replay(path):
     for k, v in rp["texts"].items():
         TAB.text[int(k)] = v
         TAB.rev[v] = int(k)
-    return [Case(eval(rp["templates"]), rp["main"], eval(rp["ctx"]), rp["lim"], kind="replay", loader=rp.get("loader", False), pathjoin=rp.get("pathjoin", False), layout=eval(rp.get("layout", "None")))]
+    return [Case(eval(rp["templates"]), rp["main"], eval(rp["ctx"]), rp["lim"], kind="replay", loader=rp.get("loader", False), pathjoin=rp.get("pathjoin", False), layout=eval(rp.get("layout", "None")),
+                 config=rp.get("config"), pjmode=rp.get("pjmode"), wstyle=rp.get("wstyle", 0), named_str=rp.get("named_str", False))]
 
 
 def main():
@@ -1027,7 +1177,7 @@ def main():
     chk.cov["distinct_nontrivial"] = len(nontriv)
     chk.cov["rule"] = ("exhaustive: every assignment of {absent, override, override + super() before, override + super() after} (+ nesting of c inside a) to blocks a, c for chains of 1-3 templates"
                        + (" and 4 templates" if chk.thorough else "; 4-template chains and the 3-block alphabet are seeded samples")
-                       + "; dynamic / conditional extends over all 2-template assignments + samples; EMPTY definitions at every level (exhaustive over one block for 2-4 templates); include / import placements (top level, for loop, macro, block, block of an extending template) x naming forms x targets; templates that exist but do not load (syntax error / failing loader) in include lists, with ignore missing, import, extends, render; a sample of all configurations served through Environment::set_loader and under a path join callback with relative names; histories of 3-200 missed include lookups (loops over include lists with missing candidates, ignore missing, in sequence) followed by includes / blocks / loops / nestings, at the default limit and at small limits right at the boundary; inheritance cycles of 2-4 templates whose members include / import / from-import / call macros / loop at their top level (before or after the extends tag); multi-directory layouts under the path join callback where the same written relative name names a different template per directory (include, list, ignore missing, loop, macro, block, import, from, extends, inherited blocks next to super(), a cross-directory cycle); modules defined through every defining construct (set, set-block incl. nested / with includes and loops, macros with closures, re-exporting from-import / import, loop-local sets) imported by import / from-import at every placement, under a discarding output and at the top level of extending templates; aliased from-imports inside macros / nested macros / loops / blocks while the original name is a template variable, macro, loop variable or context variable read by the same body; cycles, double extends, missing templates, include cycles, recursion depth boundaries, required blocks. "
+                       + "; dynamic / conditional extends over all 2-template assignments + samples; EMPTY definitions at every level (exhaustive over one block for 2-4 templates); include / import placements (top level, for loop, macro, block, block of an extending template) x naming forms x targets; templates that exist but do not load (syntax error / failing loader) in include lists, with ignore missing, import, extends, render; a sample of all configurations served through Environment::set_loader and under a path join callback with relative names; histories of 3-200 missed include lookups (loops over include lists with missing candidates, ignore missing, in sequence) followed by includes / blocks / loops / nestings, at the default limit and at small limits right at the boundary; inheritance cycles of 2-4 templates whose members include / import / from-import / call macros / loop at their top level (before or after the extends tag); multi-directory layouts under the path join callback where the same written relative name names a different template per directory (include, list, ignore missing, loop, macro, block, import, from, extends, inherited blocks next to super(), a cross-directory cycle); modules defined through every defining construct (set, set-block incl. nested / with includes and loops, macros with closures, re-exporting from-import / import, loop-local sets) imported by import / from-import at every placement, under a discarding output and at the top level of extending templates; aliased from-imports inside macros / nested macros / loops / blocks while the original name is a template variable, macro, loop variable or context variable read by the same body; every spelling of using an import (m.f(), m["f"](), set f = m.f, from-import, aliases) x placements x environment configurations that must not matter (unknown-method callback declining / handling another name, custom formatter, auto-escape callback, whitespace settings, debug), the same configurations on a sample of all families; path join callbacks (documented one, prefixing, lower-casing) with referring templates at top level / in folders / rendered with render_named_str / with dotted names and four spellings of relative names; cycles, double extends, missing templates, include cycles, recursion depth boundaries, required blocks. "
                        "Each case is rendered by the engine in a debug and a release build and evaluated by the extracted model and specification. "
                        "non-trivial = distinct (templates, context) with at least two templates whose render is a non-empty text or an error")
     chk.cov["exhaustive"] = False
